@@ -845,21 +845,22 @@ def r152(ctx, repo):
     if len(wp) != 2:
         raise AnalysisError(f"pnpoly.points_in_poly: parameters {wp}")
     rets = [n for n in walk(w) if isinstance(n, ast.Return)]
-    if len(rets) != 1 or rets[0].value is None:
-        raise AnalysisError("pnpoly.points_in_poly: expected one return "
-                            "value")
+    if not rets or any(r.value is None for r in rets):
+        raise AnalysisError("pnpoly.points_in_poly: return values")
+
+    def is_compiled(c_):
+        return isinstance(c_, ast.Call) and resolved_callee(
+            repo, PNPY, c_) in ((None, "_points_in_poly"),
+                                ("_pnpoly", "_points_in_poly"))
     rv = deref(w, rets[0].value)
-    if not (isinstance(rv, ast.Call) and resolved_callee(
-            repo, PNPY, rv) in ((None, "_points_in_poly"),
-                                ("_pnpoly", "_points_in_poly"))):
-        raise AnalysisError("pnpoly.points_in_poly: the value returned "
-                            f"`{short(rv, 40)}` is not a call of "
-                            "_points_in_poly")
-    bb = bind_args(rv, fp, "pnpoly.points_in_poly")
-    have = {k: txt(deref(w, v)) for k, v in bb.items()}
-    ok = have == {P: wp[0], V: wp[1]}
-    why = (f"pnpoly.points_in_poly passes {have} to _points_in_poly, "
-           f"expected ({wp[0]}, {wp[1]}) in this order")
+    if len(rets) == 1 and is_compiled(rv):
+        bb = bind_args(rv, fp, "pnpoly.points_in_poly")
+        have = {k: txt(deref(w, v)) for k, v in bb.items()}
+        ok = have == {P: wp[0], V: wp[1]}
+        why = (f"pnpoly.points_in_poly passes {have} to _points_in_poly, "
+               f"expected ({wp[0]}, {wp[1]}) in this order")
+    else:
+        ok, why = _blocked_wrapper(repo, w, wp, fp, P, V, is_compiled)
     # a parameter may be re-bound to an array conversion of itself only
     for par in wp:
         for v in single_assign(w, par):
@@ -867,8 +868,9 @@ def r152(ctx, repo):
                 ok = False
                 why = (f"`{par}` is replaced by `{short(v, 40)}` before it "
                        "is handed to the compiled routine")
-    ctx.ob("R15.2", ok, "pnpoly.points_in_poly forwards (points, verts) "
-           "unchanged" if ok else why, node=rets[0], label="python wrapper")
+    ctx.ob("R15.2", ok, "pnpoly.points_in_poly hands all points and the "
+           "vertices unchanged to the compiled routine" if ok else why,
+           node=rets[-1], label="python wrapper")
     WP, WV = wp if len(wp) == 2 else ("points", "verts")
     # import chain
     imp_ok = _imports(repo, PNPY, "_pnpoly", "_points_in_poly") and _imports(
@@ -1087,6 +1089,145 @@ def _stacked(e):
     if not ok:
         return None
     return arg.elts[0], arg.elts[1], cast
+
+
+def _blocked_wrapper(repo, w, wp, fp, P, V, is_compiled):
+    """a wrapper that evaluates the points in blocks: executed for several
+    input sizes with a small block size, the slices handed to the compiled
+    routine (and written into the result) must tile [0, n) exactly"""
+    PT, VT = wp
+    consts = {}
+    for st in repo.tree(PNPY).body:
+        if isinstance(st, ast.Assign) and len(st.targets) == 1 and isinstance(
+                st.targets[0], ast.Name) and not isinstance(
+                st.value, (ast.Dict, ast.List, ast.Call)):
+            consts[st.targets[0].id] = 4     # any block size must tile
+    body = [x for x in w.body if not (isinstance(x, ast.Expr) and isinstance(
+        x.value, ast.Constant))]
+
+    class Done(Exception):
+        pass
+
+    def interval(sl, env):
+        """(lo, hi) of a slice expression / slice variable"""
+        if isinstance(sl, ast.Name) and isinstance(env.get(sl.id), tuple):
+            return env[sl.id]
+        if isinstance(sl, ast.Slice) and sl.step is None:
+            lo = ev(sl.lower, env) if sl.lower is not None else 0
+            hi = ev(sl.upper, env) if sl.upper is not None else env["__n__"]
+            return (lo, hi)
+        raise AnalysisError("pnpoly.points_in_poly: block "
+                            f"`{short(sl, 30)}` not understood")
+
+    def handle_call(c_, env, target):
+        bb = bind_args(c_, fp, "pnpoly.points_in_poly")
+        if txt(bb.get(V)) != VT:
+            return f"the vertices passed are `{short(bb.get(V), 30)}`"
+        a_ = bb.get(P)
+        if isinstance(a_, ast.Name) and a_.id == PT:
+            cover = (0, env["__n__"])
+        elif isinstance(a_, ast.Subscript) and txt(a_.value) == PT:
+            cover = interval(a_.slice, env)
+        else:
+            return (f"`{short(a_, 30)}` is handed to the compiled routine "
+                    f"instead of `{PT}`")
+        if target is not None:
+            if interval(target, env) != cover:
+                return (f"block {cover} of the points is written to "
+                        f"{interval(target, env)} of the result")
+        env["__cov__"].append(cover)
+        return None
+
+    def run(stmts, env):
+        for st in stmts:
+            if isinstance(st, ast.Return):
+                v = deref(w, st.value) if isinstance(st.value, ast.Name) \
+                    and st.value.id not in env.get("__res__", ()) \
+                    else st.value
+                if is_compiled(v):
+                    err = handle_call(v, env, None)
+                    if err:
+                        env["__err__"] = err
+                raise Done()
+            if isinstance(st, ast.If):
+                try:
+                    t_ = ev(st.test, env)
+                except _NoEval as e:
+                    raise AnalysisError(f"pnpoly.points_in_poly: test: {e}")
+                run(st.body if t_ else st.orelse, env)
+            elif isinstance(st, ast.For) and isinstance(
+                    st.target, ast.Name) and isinstance(
+                    st.iter, ast.Call) and call_name(st.iter) == "range" \
+                    and not st.orelse:
+                try:
+                    rng = range(*[ev(a_, env) for a_ in st.iter.args])
+                except (_NoEval, TypeError) as e:
+                    raise AnalysisError(f"pnpoly.points_in_poly: range: {e}")
+                for i_ in rng:
+                    env[st.target.id] = i_
+                    run(st.body, env)
+            elif isinstance(st, ast.Assign) and len(st.targets) == 1:
+                t_, v_ = st.targets[0], st.value
+                if isinstance(t_, ast.Name) and t_.id == PT:
+                    continue        # conversion of the parameter (checked)
+                if isinstance(t_, ast.Name) and isinstance(
+                        v_, ast.Call) and call_name(v_) == "slice" \
+                        and len(v_.args) == 2:
+                    try:
+                        env[t_.id] = (ev(v_.args[0], env),
+                                      ev(v_.args[1], env))
+                    except _NoEval as e:
+                        raise AnalysisError(
+                            f"pnpoly.points_in_poly: slice: {e}")
+                elif isinstance(t_, ast.Name) and isinstance(
+                        v_, ast.Call) and (call_name(v_) or "").split(
+                        ".")[-1] in ("zeros", "empty", "zeros_like",
+                                     "empty_like", "ones"):
+                    env.setdefault("__res__", set()).add(t_.id)
+                elif isinstance(t_, ast.Subscript) and isinstance(
+                        t_.value, ast.Name) and t_.value.id in env.get(
+                        "__res__", ()) and is_compiled(v_):
+                    err = handle_call(v_, env, t_.slice)
+                    if err:
+                        env["__err__"] = err
+                elif isinstance(t_, ast.Name):
+                    try:
+                        env[t_.id] = ev(v_, env)
+                    except _NoEval as e:
+                        raise AnalysisError("pnpoly.points_in_poly: "
+                                            f"`{short(st, 40)}`: {e}")
+                else:
+                    raise AnalysisError("pnpoly.points_in_poly: statement "
+                                        f"`{short(st, 40)}` not understood")
+            else:
+                raise AnalysisError("pnpoly.points_in_poly: statement "
+                                    f"`{short(st, 40)}` not understood")
+    for n in (0, 1, 3, 4, 5, 8, 9, 11, 12, 13):
+        env = dict(consts)
+        env.update({"__n__": n, f"{PT}.shape": (n, 2), PT: [0] * n,
+                    f"{PT}.size": 2 * n, "__cov__": []})
+        try:
+            run(body, env)
+            raise AnalysisError("pnpoly.points_in_poly: a path ends without "
+                                "return")
+        except Done:
+            pass
+        if env.get("__err__"):
+            return False, "pnpoly.points_in_poly: " + env["__err__"]
+        seen = [0] * n
+        for lo, hi in env["__cov__"]:
+            for k in range(max(lo, 0), min(hi, n)):
+                seen[k] += 1
+        if any(v != 1 for v in seen):
+            miss = [k for k, v in enumerate(seen) if v == 0]
+            return False, (
+                f"executed for {n} points with a block size of 4: the "
+                f"blocks handed to the compiled routine are "
+                f"{env['__cov__']}"
+                + (f" – points {miss[0]}..{miss[-1]} are never evaluated "
+                   "(reported as outside every polygon)" if miss else
+                   " – some points are evaluated twice"))
+    return True, ""
 
 
 def _copy_inversion(ctx, repo):
@@ -2194,6 +2335,28 @@ MUTANTS = [
     ("replacement identifier may be in use", POLY,
      ("            newid = max(PolygonFilter._instance_counter, "
       "unique_id+1)", "            newid = unique_id + 1"), "R15.3"),
+    ("wrapper evaluates full blocks only (seeded C03_10)", PNPY,
+     [("from ._pnpoly import _grid_points_in_poly, _points_in_poly\n", "import numpy as np\n\nfrom ._pnpoly import _grid_points_in_poly, _points_in_poly\n\n_PNPOLY_CHUNK = 2**19\n"),
+      ("    return _points_in_poly(points, verts)\n",
+       "    points = np.asarray(points)\n"
+       "    if points.shape[0] <= _PNPOLY_CHUNK:\n"
+       "        return _points_in_poly(points, verts)\n"
+       "    mask = np.zeros(points.shape[0], dtype=bool)\n"
+       "    for ii in range(points.shape[0] // _PNPOLY_CHUNK):\n"
+       "        block = slice(ii * _PNPOLY_CHUNK, (ii + 1) * _PNPOLY_CHUNK)\n"
+       "        mask[block] = _points_in_poly(points[block], verts)\n"
+       "    return mask\n")], "R15.2"),
+    ("wrapper writes a block to the wrong place", PNPY,
+     [("from ._pnpoly import _grid_points_in_poly, _points_in_poly\n", "import numpy as np\n\nfrom ._pnpoly import _grid_points_in_poly, _points_in_poly\n\n_PNPOLY_CHUNK = 2**19\n"),
+      ("    return _points_in_poly(points, verts)\n",
+       "    points = np.asarray(points)\n"
+       "    n = points.shape[0]\n"
+       "    mask = np.zeros(n, dtype=bool)\n"
+       "    for start in range(0, n, _PNPOLY_CHUNK):\n"
+       "        stop = min(start + _PNPOLY_CHUNK, n)\n"
+       "        mask[0:stop - start] = _points_in_poly(points[start:stop],\n"
+       "                                               verts)\n"
+       "    return mask\n")], "R15.2"),
     ("inversion result discarded", POLY,
      ("            np.invert(f, f)\n", "            np.invert(f)\n"),
      "R15.2"),
@@ -2296,6 +2459,19 @@ TWINS = [
     ("identifier looked up with the other registry scan", POLY,
      ("        if PolygonFilter.instace_exists(unique_id):",
       "        if PolygonFilter.unique_id_exists(unique_id):")),
+    ("wrapper evaluates large inputs in blocks that tile the input", PNPY,
+     [("from ._pnpoly import _grid_points_in_poly, _points_in_poly\n", "import numpy as np\n\nfrom ._pnpoly import _grid_points_in_poly, _points_in_poly\n\n_PNPOLY_CHUNK = 2**19\n"),
+      ("    return _points_in_poly(points, verts)\n",
+       "    points = np.asarray(points)\n"
+       "    n = points.shape[0]\n"
+       "    if n <= _PNPOLY_CHUNK:\n"
+       "        return _points_in_poly(points, verts)\n"
+       "    mask = np.zeros(n, dtype=bool)\n"
+       "    for start in range(0, n, _PNPOLY_CHUNK):\n"
+       "        stop = min(start + _PNPOLY_CHUNK, n)\n"
+       "        mask[start:stop] = _points_in_poly(points[start:stop], "
+       "verts)\n"
+       "    return mask\n")]),
     ("filter returns the complement by expression", POLY,
      ("            np.invert(f, f)\n", "            f = ~f\n")),
     ("save with f-strings", POLY,
